@@ -416,7 +416,9 @@ def run_check(pid: str, tier: str, seed: int, only: str | None = None) -> int:
 
     if harness_errors:
         print(f"HARNESS-ERROR property={pid}\n" + "\n---\n".join(harness_errors[:3]), file=sys.stderr)
-        return 2
+        if failure is None:
+            return 2
+        # a violation observed by one shard stands even if another shard hit a harness error
 
     if failure is not None:
         rdir = Path(os.environ.get("VERIF_REPLAY_DIR", VERIF / "replays")) / pid
